@@ -331,7 +331,7 @@ func (c *Ctx) stress(d time.Duration) {
 		ck   string
 	}{
 		{"GET", "/users/", nil, ""}, {"PUT", "/users/u1", userJSON, ""}, {"GET", "/users/u1", nil, ""}, {"DELETE", "/users/u1", nil, ""},
-		{"PUT", "/services/svc1", md, ""}, {"GET", "/services/", nil, ""}, {"DELETE", "/services/svc1", nil, ""}, {"GET", "/services/svc1", nil, ""},
+		{"PUT", "/services/svc1", md, ""}, {"PUT", "/services/svc1", spMetadataXML("https://spb.example.com/md", true), ""}, {"GET", "/services/", nil, ""}, {"DELETE", "/services/svc1", nil, ""}, {"GET", "/services/svc1", nil, ""},
 		{"GET", "/login/sc1", nil, "sess1"}, {"GET", "/login", nil, "sess1"}, {"GET", "/sessions/", nil, ""}, {"GET", "/metadata", nil, ""},
 		{"GET", "/sso?SAMLRequest=bm90IGRlZmxhdGU%3D", nil, "sess1"}, {"GET", "/shortcuts/", nil, ""},
 	}
